@@ -554,3 +554,35 @@ for _d in sorted(_glob.glob(_os.path.join(_ROOT, "seeded", "*"))):
         if _meta.get("checks_that_fire"):
             VARIANTS.append(dict(id="seeded-" + _os.path.basename(_d), props=list(_meta["checks_that_fire"]), kind="seeded", edits=[],
                                  patch=_p, rules=None))
+benign("c18-node-only-guard-clause", ["C18"], [(NM, """        if parent is not value:
+            self.__check_loop(value)
+            self.__detach(parent)
+            self.__attach(value)
+""", """        if parent is value:
+            return
+        self.__check_loop(value)
+        self.__detach(parent)
+        self.__attach(value)
+""")])
+benign("c18-light-only-detach-guard-clause", ["C18"], [(LM, """        if parent is not None:
+            self._pre_detach(parent)
+            parentchildren = parent.__children_or_empty
+            if ASSERTIONS:  # pragma: no branch
+                assert any(child is self for child in parentchildren), "Tree is corrupt."  # pragma: no cover
+            # ATOMIC START
+            parent.__children = [child for child in parentchildren if child is not self]
+            self.__parent = None
+            # ATOMIC END
+            self._post_detach(parent)
+""", """        if parent is None:
+            return
+        self._pre_detach(parent)
+        parentchildren = parent.__children_or_empty
+        if ASSERTIONS:  # pragma: no branch
+            assert any(child is self for child in parentchildren), "Tree is corrupt."  # pragma: no cover
+        # ATOMIC START
+        parent.__children = [child for child in parentchildren if child is not self]
+        self.__parent = None
+        # ATOMIC END
+        self._post_detach(parent)
+""")])
